@@ -67,6 +67,7 @@ type summary struct {
 	WallS       float64           `json:"wall_s"`
 	Notes       map[string]any    `json:"notes"`
 	Partial     bool              `json:"partial,omitempty"`
+	Unstable    int               `json:"unstable_runs"`
 	TraceHashes map[string]string `json:"trace_hashes,omitempty"`
 }
 
@@ -186,7 +187,7 @@ func modeExplore(t *testing.T) {
 			os.WriteFile(progress, []byte(fmt.Sprintf(`{"property":%q,"seed":%d,"run":%d}`, prop, seed, i)), 0o644)
 		}
 		rs := MixSeed(seed, prop, i)
-		res := RunOne(t, p, NewGenTape(rs), rs)
+		res := RunOne(t, p, NewGenTape(rs), rs, i)
 		sum.Runs++
 		sum.LastRun = i
 		if os.Getenv("VERIF_KEEP_HASHES") != "" {
@@ -200,6 +201,9 @@ func modeExplore(t *testing.T) {
 			sum.TraceHashes[strconv.FormatUint(i, 10)] = h
 		}
 		sched[res.SchedHash] = struct{}{}
+		if res.Unstable != "" {
+			sum.Unstable++
+		}
 		nf := 0
 		for k, v := range res.Faults {
 			sum.Faults[k] += v
@@ -272,7 +276,7 @@ func modeReplay(t *testing.T) {
 	p := getProp(t, rf.Property)
 	tape := NewReplayTape(rf.Tape)
 	defer tapeSink(tape)()
-	res := RunOne(t, p, tape, MixSeed(rf.Seed, rf.Property, rf.Run))
+	res := RunOne(t, p, tape, MixSeed(rf.Seed, rf.Property, rf.Run), rf.Run)
 	writeJSON(os.Getenv("VERIF_OUT"), replayOut{res.Violation, res.TraceHash, res.Trace, res.Tape})
 }
 
@@ -284,7 +288,7 @@ func modeGenRun(t *testing.T) {
 	rs := MixSeed(seed, prop, run)
 	tape := NewGenTape(rs)
 	defer tapeSink(tape)()
-	res := RunOne(t, p, tape, rs)
+	res := RunOne(t, p, tape, rs, run)
 	writeJSON(os.Getenv("VERIF_OUT"), replayOut{res.Violation, res.TraceHash, res.Trace, res.Tape})
 }
 
@@ -330,7 +334,7 @@ func inProcRunner(t *testing.T, rf *ReplayFile) runner {
 	p := getProp(t, rf.Property)
 	rs := MixSeed(rf.Seed, rf.Property, rf.Run)
 	return func(tape []uint32) (*Violation, string, []uint32, []string) {
-		res := RunOne(t, p, NewReplayTape(tape), rs)
+		res := RunOne(t, p, NewReplayTape(tape), rs, rf.Run)
 		return res.Violation, res.TraceHash, res.Tape, res.Trace
 	}
 }
@@ -495,7 +499,7 @@ func modeVerify(t *testing.T) {
 	run := pickRunner(t, rf)
 	v, th, _, tr := run(rf.Tape)
 	res := map[string]any{"reproduced": false, "violation": v, "trace_hash": th, "trace": tr}
-	if v != nil && rf.Violation != nil && v.Class == rf.Violation.Class && (rf.TraceHash == "" || th == "" || th == rf.TraceHash) {
+	if v != nil && rf.Violation != nil && v.Class == rf.Violation.Class && (rf.TraceHash == "" || th == "" || th == rf.TraceHash || strings.HasPrefix(th, "unstable:") || strings.HasPrefix(rf.TraceHash, "unstable:")) {
 		res["reproduced"] = true
 	}
 	if v != nil && rf.Violation == nil {
